@@ -134,6 +134,18 @@ def body(ctx, p):
             for q in (base, base + dd * u):
                 if min(np.linalg.norm(third + o - q) for o in offs) < cmax:
                     use_third = False
+    nby = int(p.get('bystanders', 0))
+    by_pos = []
+    if nby:
+        # a large structure: hundreds of helium atoms on a 4 A grid (He-He cutoff 1.01 A), none within 6 A of the pair's region
+        g = 0
+        for i_ in range(int(cell[0][0] // 4)):
+            for j_ in range(int(cell[1][1] // 4)):
+                for k_ in range(int(cell[2][2] // 4)):
+                    q = np.array([2.0 + 4.0 * i_, 2.0 + 4.0 * j_, 2.0 + 4.0 * k_])
+                    if len(by_pos) < nby and np.linalg.norm(q - base) > 6.0 + cut and all(q[c] < cell[c][c] - 1.5 for c in range(3)):
+                        by_pos.append(q)
+        assert len(by_pos) == nby, len(by_pos)
     els = [e1, e2] + (['He'] if use_third else [])
     if cell is None:
         rows = [list(base), [float(base[c]) + d * float(u[c]) for c in range(3)]] + ([list(third)] if use_third else [])
@@ -146,11 +158,17 @@ def body(ctx, p):
         fracs = [[float(fA[k]) + shift[k] for k in range(3)], [float(fA[k]) + shift[k] + d * float(fu[k]) for k in range(3)]]
         if use_third:
             fracs.append([float(fT[k]) + shift[k] for k in range(3)])
+        for q in by_pos:
+            fq = wrap_concrete(q.reshape(1, 3), cell)[0]
+            fracs.append([float(fq[k]) + shift[k] for k in range(3)])
         rows = []
         for fr in fracs:
             g = [x % 1.0 if not isinstance(x, float) else x % 1.0 for x in fr]      # wrap into the cell (case split when symbolic)
             rows.append([sum(g[k] * float(cell[k][c]) for k in range(3)) for c in range(3)])
+    els = els + ['He'] * len(by_pos)
     order = list(range(len(els)))
+    if p.get('pair_last'):
+        order = order[2:] + [0, 1]        # the pair is stored AFTER the bystanders (high indices)
     if p.get('swap'):
         order = order[::-1]
     st = Atoms(elements=[els[i] for i in order], positions=np.zeros((len(els), 3)), cell=cell if not p.get('int_cell') else np.array(cell).astype(int))
